@@ -88,6 +88,17 @@ def gen_records(args):
                 for col, pp in ((0, [M // 2] * n), (1, p), (2, [E] * n)):
                     out, err = _vec(o, col)
                     recs.append({'kind': 'cv', 'p': pp, 'step': S, 'edge': E, 'good': 0, 'hasmask': 0, 'mask': [], 'out': out, 'layout': 'three-column'})
+            # the comparison with phase_step is STRICT: a change exactly equal to the step is no wrap.  Dyadic phases
+            # (even lattice numbers 2k <-> k/4 rad, exact floats) and a dyadic step make the tie exact.
+            if pid == 'C12' and S == STEPS[E][1] and n >= 2:
+                p2 = [2 * (k % 12) for k in p]
+                phd = np.array(p2, dtype=float) / 8.0
+                for T in (2, 5):
+                    out, err = _vec(_call(gcv, phd, return_good=False, phase_step=(2 * T) / 8.0, phase_edge=edge))
+                    r = {'kind': 'cv', 'p': p2, 'step': 2 * T, 'edge': E, 'good': 0, 'hasmask': 0, 'mask': [], 'out': out, 'layout': 'exact-tie'}
+                    if err:
+                        r['err'] = err
+                    recs.append(r)
             # masks
             if n <= masks_upto:
                 mlist = itertools.product((0, 1), repeat=n)
@@ -168,6 +179,9 @@ def long_records(args):
 
 def run(pid):
     ctx = Ctx(pid)
+    if pid == 'C12':
+        from .extras import waveform_leg
+        waveform_leg(ctx)
     rng_seed = ctx.seed
     quick = ctx.quick
     # ---------------- Leg A: theorems on the spec --------------------------------------
